@@ -151,6 +151,17 @@ CLAIMED['C05'] = dict(
     technique="discarded-result, sign/kind pairing, index-provenance and null-discipline rules over the clang-resolved AST",
     ref="DESIGN.md section 4, C05")
 
+CLAIMED['C03'] = dict(
+    text="Structural necessary conditions in the exact solver: every transformation bracket (stored LP, lifting, equality form, stored basis, "
+         "unboundedness and feasibility problems) is closed on every normal path, under the same parameter and in reverse order; feasibility flags "
+         "become true only from exact tolerance comparisons of violations that were computed from one solution, or under an acceptor (rational "
+         "reconstruction, exact factorization), and OPTIMAL is assigned only under primalFeasible && dualFeasible; violations and tolerances are "
+         "Rational and no floating-point value enters a Rational where violations are computed; the rational objective value is objective times "
+         "primal in the user's sense plus the objective offset wherever it is computed. Not a proof that refinement converges or that the "
+         "transformations and the reconstruction test are right inside.",
+    technique="typestate-style bracket checking on the CFG under parameter assumptions, provenance rules for acceptance flags, type-directed conversion lint over the clang-resolved AST",
+    ref="DESIGN.md section 4, C03")
+
 NA = {
     'C10': "every clause quantifies over run-time numbers (residuals at rounding level, singular vs. well-conditioned, agreement of multi-rhs solves); "
            "no structural clause is both checkable and necessary (DESIGN.md section 5)",
